@@ -43,15 +43,66 @@ def run_seed(vseed, prop, profile, i):
     return int(h[:12], 16)
 
 
+def _in_fresh_process(fn, limit):
+    """Run fn() in a fork of this (warmed-up, otherwise idle) worker and
+    return its pickled result.  Every simulated run therefore starts from the
+    module state of a just-started service: nothing a run leaves in process
+    memory (caches, flags, counters - of placement or of a change to it) can
+    leak into the next run, which would make a finding depend on what the
+    worker ran before and so not replay."""
+    if os.environ.get('PSIM_NOFORK'):
+        return fn()
+    import pickle
+    r, w = os.pipe()
+    pid = os.fork()
+    if pid == 0:
+        code = 0
+        try:
+            os.close(r)
+            # (faulthandler's watchdog thread does not survive fork)
+            import signal
+            signal.signal(signal.SIGALRM, signal.SIG_DFL)
+            signal.alarm(int(limit))
+            try:
+                out = fn()
+            except Exception:
+                out = {'harness_error': traceback.format_exc(),
+                       'findings': []}
+            finally:
+                try:
+                    _WORLD.stop_peer()
+                except Exception:
+                    pass
+            data = pickle.dumps(out)
+            with os.fdopen(w, 'wb') as f:
+                f.write(data)
+        except BaseException:
+            code = 3
+        finally:
+            os._exit(code)
+    os.close(w)
+    with os.fdopen(r, 'rb') as f:
+        data = f.read()
+    os.waitpid(pid, 0)
+    if not data:
+        return {'harness_error': 'the process of this run died without a '
+                'result (see stderr)', 'findings': []}
+    return pickle.loads(data)
+
+
 def _job(args):
     prop, profile, params, seed = args
     from psim import plans
-    faulthandler.dump_traceback_later(280, exit=True)
-    try:
+    faulthandler.dump_traceback_later(300, exit=True)
+
+    def body():
         fn = plans.profile_fn(profile)
         t0 = time.time()
         res = fn(_WORLD, seed, params)
         res['wall'] = time.time() - t0
+        return res
+    try:
+        res = _in_fresh_process(body, 280)
         res['seed'] = seed
         res['profile'] = profile
         return res
@@ -64,9 +115,10 @@ def _job(args):
 
 def _replay_job(rp):
     from psim import plans
-    faulthandler.dump_traceback_later(120, exit=True)
+    faulthandler.dump_traceback_later(140, exit=True)
     try:
-        return plans.replay_fn(rp['profile'])(_WORLD, rp)
+        return _in_fresh_process(
+            lambda: plans.replay_fn(rp['profile'])(_WORLD, rp), 120)
     except Exception:
         return {'harness_error': traceback.format_exc()}
     finally:
